@@ -138,6 +138,7 @@ Plan shrink_plan(const PropCfg &cfg, const Plan &plan, const std::string &prop, 
     try_world([](Plan &q) { q.w.extra.clear(); });
     try_world([](Plan &q) { q.w.low_fds = 7; });
     try_world([](Plan &q) { q.w.sigpipe = 0; });
+    try_world([](Plan &q) { q.w.sa_flags = false; });
     try_world([](Plan &q) { q.w.mask = 0; q.w.ignored.clear(); q.w.handled.clear(); });
     try_world([](Plan &q) { q.w.cwd_depth = 1; q.w.cwd_comp = 1; });
     try_world([](Plan &q) { q.w.parent_env = { "PATH=/bin" }; });
